@@ -133,3 +133,54 @@ def glue_ob(oid, timeout):
         what="the pagination context gets the ORIGINAL frame, the indices of exactly the removed columns, one cumulative width per "
              "displayed column, the reserved rows, the strategy matching the grouping mode; pages are post-processed with the "
              "column-reduced frame and rendered once each in order (an empty result still renders one page)")
+
+
+HDR_PREP = r'''
+from vf.hlib import NS, pick, concrete_int
+from vf.fakes import FakeFrame
+import rtflite as rtf
+from rtflite.attributes import BroadcastValue
+from rtflite.services.encoding_service import RTFEncodingService
+SVC = RTFEncodingService()
+COLS = ["a", "b", "c", "d", "e"]
+W = [1.0, 2.0, 3.0, 4.0, 5.0]
+JUST = ["l", "c", "r", "j", "d"]
+SIZE = [[6, 7, 8, 9, 10], [11, 12, 13, 14, 15]]
+'''
+
+
+def prep_ob(oid, timeout):
+    """column removal keeps widths and per-column / per-cell attributes bound to their columns (C08, C09)"""
+    return Ob(
+        oid=oid, sig="pa: bool, pb: bool, pd: bool, sb: bool, sc: bool, new_page: bool, first_row: bool",
+        pre=["not (pb and sb)", "(pa or pb or pd) or not new_page"], header=HDR_PREP, timeout=timeout,
+        body=r'''
+    page_by = [c for c, f in zip("abd", (pa, pb, pd)) if f] or None
+    subline_by = [c for c, f in zip("bc", (sb, sc)) if f] or None
+    body = rtf.RTFBody(page_by=page_by, subline_by=subline_by, new_page=True if new_page else False,
+                       pageby_row="first_row" if first_row else "column", col_rel_width=list(W),
+                       text_justification=[list(JUST)], text_font_size=[list(r) for r in SIZE], text_format="b")
+    df = FakeFrame({c: [c + "0", c + "1"] for c in COLS})
+    processed, original, attrs = SVC.prepare_dataframe_for_body_encoding(df, body)
+    removed = set(subline_by or [])
+    if page_by and (not new_page or first_row):
+        removed |= set(page_by)
+    keep = [i for i, c in enumerate(COLS) if c not in removed]
+    ok = processed.columns == [COLS[i] for i in keep]
+    ok = ok and list(attrs.col_rel_width) == [W[i] for i in keep]
+    n = len(keep)
+    for r in range(2):
+        for j, i in enumerate(keep):
+            ok = ok and BroadcastValue(value=attrs.text_justification, dimension=(2, n)).iloc(r, j) == JUST[i]
+            ok = ok and BroadcastValue(value=attrs.text_font_size, dimension=(2, n)).iloc(r, j) == SIZE[r][i]
+            ok = ok and BroadcastValue(value=attrs.text_format, dimension=(2, n)).iloc(r, j) == "b"
+    # the caller's body is untouched
+    ok = ok and list(body.col_rel_width) == W and body.text_justification == [JUST] and body.text_font_size == SIZE
+    return ok
+''',
+        funcs=["rtflite.services.encoding_service:RTFEncodingService.prepare_dataframe_for_body_encoding"],
+        stubs=["data frame -> FakeFrame (clone, select, columns)"],
+        bounds="5 columns with widths 1:2:3:4:5, a per-column justification vector and a 2x5 font-size matrix; page_by subset of "
+               "{a,b,d}, subline_by subset of {b,c} (0..4 columns removed at any position), new_page / pageby_row symbolic",
+        what="after removing the consumed columns, the displayed columns keep their own relative widths and every per-column and "
+             "per-cell attribute value stays bound to its original column; the caller's body object is not modified")
